@@ -246,6 +246,19 @@ class Zones(Sub):
             if want is None:
                 continue        # compound transition: the model does not commit
             req(T.us(got) == want, f"{nm}: lands on the wrong side of a {kind} midnight of the target day", got=str(got), expected=T.render(want, z).isoformat(), value=str(x))
+        # keep_time=True: the target date at the value's own time of day; when that wall time is skipped or repeated there it is resolved like every
+        # calendar shift (C04): on the post-transition side
+        tod_us = T.naive_us(r) - T.naive_us(D.datetime(r.year, r.month, r.day))
+        for nm, fn, exp in (("next(keep_time)", lambda: x.next(W, keep_time=True), nxt), ("previous(keep_time)", lambda: x.previous(W, keep_time=True), prv)):
+            if day_missing(exp):
+                continue
+            want = T.expected_construct(T.naive_us(D.datetime(exp.year, exp.month, exp.day)) + tod_us, z, 1)[1]
+            if want is None:
+                continue
+            got = fn()
+            req(type(got) is DateTime and got.timezone_name == z, f"{nm}: type/zone not kept", got=repr(got))
+            req(T.us(got) == want, f"{nm}: not the target date at the value's time of day (resolved on the post-transition side where that time is skipped/repeated)",
+                got=str(got), expected=T.render(want, z).isoformat(), value=str(x))
         if nth > len(oc) and not any(day_missing(dd) for dd in (a, b)):
             try:
                 rr = x.nth_of(unit, nth, W)
